@@ -732,10 +732,13 @@ func (s *Serializer) decBlock(br *bytes.Buffer, dst []byte, wg *sync.WaitGroup, 
 			defer wg.Done()
 			buf := bytes.NewBuffer(compressed)
 			dec := s2Readers.Get().(*s2.Reader)
+			simHook(simPoolGet, nil, simPoolS2Reader)
 			dec.Reset(buf)
 			_, err := io.ReadFull(dec, dst)
 			dec.Reset(nil)
+			simHook(simPoolPutBefore, nil, simPoolS2Reader)
 			s2Readers.Put(dec)
+			simHook(simPoolPutAfter, nil, simPoolS2Reader)
 			*dstErr = err
 		}()
 	case blockTypeZstd:
@@ -743,7 +746,9 @@ func (s *Serializer) decBlock(br *bytes.Buffer, dst []byte, wg *sync.WaitGroup, 
 		go func() {
 			defer wg.Done()
 			want := len(dst)
+			simHook(simPoolGet, nil, simPoolZstdDec)
 			dst, err = zDec.DecodeAll(compressed, dst[:0])
+			simHook(simPoolPutAfter, nil, simPoolZstdDec)
 			if err == nil && want != len(dst) {
 				err = errors.New("zstd decompressed size mismatch")
 			}
@@ -799,13 +804,16 @@ func encBlock(mode byte, buf []byte, fast bool) (io.Writer, encodedResult) {
 	case blockTypeS2:
 		var enc *s2.Writer
 		var put *sync.Pool
+		simKind := simPoolS2
 		if fast {
 			enc = s2FastWriters.Get().(*s2.Writer)
 			put = &s2FastWriters
+			simKind = simPoolS2Fast
 		} else {
 			enc = s2Writers.Get().(*s2.Writer)
 			put = &s2Writers
 		}
+		simHook(simPoolGet, nil, simKind)
 		enc.Reset(dst)
 		return enc, func() (i []byte, err error) {
 			err = enc.Close()
@@ -813,11 +821,14 @@ func encBlock(mode byte, buf []byte, fast bool) (io.Writer, encodedResult) {
 				return nil, err
 			}
 			enc.Reset(nil)
+			simHook(simPoolPutBefore, nil, simKind)
 			put.Put(enc)
+			simHook(simPoolPutAfter, nil, simKind)
 			return dst.Bytes(), nil
 		}
 	case blockTypeZstd:
 		enc := zEncFast.Get().(*zstd.Encoder)
+		simHook(simPoolGet, nil, simPoolZstdEnc)
 		enc.Reset(dst)
 		return enc, func() (i []byte, err error) {
 			err = enc.Close()
@@ -825,7 +836,9 @@ func encBlock(mode byte, buf []byte, fast bool) (io.Writer, encodedResult) {
 				return nil, err
 			}
 			enc.Reset(nil)
+			simHook(simPoolPutBefore, nil, simPoolZstdEnc)
 			zEncFast.Put(enc)
+			simHook(simPoolPutAfter, nil, simPoolZstdEnc)
 			return dst.Bytes(), nil
 		}
 	}
